@@ -1,0 +1,25 @@
+//! Verification hook (only compiled with `--cfg mla_verif`): lets the size
+//! constants of the layers be scaled down at build time so that every boundary
+//! alignment can be enumerated. Without the cfg this module does not exist and
+//! the constants keep their production values.
+
+/// Parse a decimal build-time environment value, falling back to `default`
+pub(crate) const fn parse(value: Option<&str>, default: u64) -> u64 {
+    match value {
+        None => default,
+        Some(s) => {
+            let bytes = s.as_bytes();
+            if bytes.is_empty() {
+                return default;
+            }
+            let mut acc: u64 = 0;
+            let mut i = 0;
+            while i < bytes.len() {
+                assert!(bytes[i].is_ascii_digit(), "MLA_VERIF_* must be decimal");
+                acc = acc * 10 + (bytes[i] - b'0') as u64;
+                i += 1;
+            }
+            acc
+        }
+    }
+}
